@@ -99,7 +99,7 @@ Definition same1 (s s1 : gst) : Prop :=
 Lemma same1_pcinv W s s1 p : same1 s s1 -> pcinv W s p -> pcinv W s1 p.
 Proof.
   intros (E1 & E2 & E3 & E4 & E5 & E6 & E7 & E8 & E9 & E10 & E11).
-  unfold pcinv, opform, head_nb, head_bar, head_wt, U, pb. rewrite E1, E2, E4, E5, E6, E8, E9, E10. tauto.
+  unfold pcinv, opform, head_nb, head_bar, head_wt, U, pb, dirty. rewrite E1, E2, E4, E5, E6, E8, E9, E10. tauto.
 Qed.
 
 Lemma same1_inv W s s1 : same1 s s1 -> Inv W s -> Inv W s1.
@@ -132,12 +132,13 @@ Qed.
 (* what a step of a thread that does not own the lock may do to the owner's knowledge *)
 Lemma pcinv_stable W s s' p :
   bmode s' = bmode s -> dw s' = dw s -> pb s' = pb s -> (U s' <= U s \/ U s' <= 4095) ->
+  (dirty s' = 1 \/ (U s <= U s' /\ dirty s' = dirty s)) ->
   (lst s' = lst s \/ exists x, lst s' = lst s ++ [x]) ->
   (forall u, grant s u = GNone -> waitpc (pcs s u) = true -> grant s' u = GNone /\ waitpc (pcs s' u) = true) ->
   (forall u, In u (waiters (lst s')) -> In u (waiters (lst s)) \/ waitpc (pcs s u) = false) ->
   pcinv W s p -> pcinv W s' p.
 Proof.
-  intros Eb Ed Ep HU Hl Hg Hw.
+  intros Eb Ed Ep HU HD Hl Hg Hw.
   assert (Hnb : head_nb s -> head_nb s').
   { unfold head_nb. destruct Hl as [->|(x & ->)]; [tauto|]. destruct (lst s); cbn; tauto. }
   assert (Hbar : head_bar s -> head_bar s').
@@ -151,13 +152,15 @@ Proof.
     intros Hin. destruct (Hw u Hin) as [X|X]; [contradiction|congruence].
   - (* DN_add *) intros (H1 & H2 & H3 & H4 & H5 & H6). repeat split; auto. lia.
   - (* W_addw *) intros (H0 & H1 & H2 & H3 & H4 & H5 & H6). repeat split; auto. lia.
+  - (* W_unlock *) intros (H1 & H2). split; [exact H1|]. intros P. specialize (H2 P).
+    destruct HD as [D1|(D1 & D2)]; [right; exact D1|]. destruct H2 as [H2|H2]; [left; lia | right; congruence].
 Qed.
 
 (* moving one thread between program points without touching anything else *)
 Lemma pcinv_setpc W s t p' q :
   (waitpc (pcs s t) = true -> waitpc p' = true) -> pcinv W s q -> pcinv W (set_pc s t p') q.
 Proof.
-  intros Hw. destruct q; cbn [pcinv]; unfold opform, head_nb, head_bar, head_wt, U, pb; gcbn; try tauto.
+  intros Hw. destruct q; cbn [pcinv]; unfold opform, head_nb, head_bar, head_wt, U, pb, dirty; gcbn; try tauto.
   intros (H1 & H2 & H3 & H4 & H5 & H6). repeat (split; [assumption|]). split; [|exact H6].
   unfold upd. destruct (Z.eqb_spec u t) as [->|]; auto.
 Qed.
@@ -309,13 +312,20 @@ Proof.
     split; [rewrite op_width by lia; subst d; reflexivity | exact P].
 Qed.
 
+Lemma pb_nil W s r : ginv W s r -> lst s = [] -> pb s = 0.
+Proof.
+  intros G Hn. rewrite (pb_of W s r G). pose proof (g_wf _ _ _ G) as Wf. unfold wfr in Wf.
+  destruct (Z.eq_dec (f_pb r) 1) as [E|E]; [|lia]. apply (g_pbh _ _ _ G) in E.
+  unfold head_bar in E. rewrite Hn in E. contradiction.
+Qed.
+
 Lemma step_W_tail W s t op : Inv W s -> pcs s t = W_tail op ->
   Inv W (set_pc s t (if is_nil (lst s) then W_unlock op 1
                      else W_head op (if nz (f_dq_state_is_in_barrier op) then IN_BARRIER else Z.land op WIDTH_MASK))).
 Proof.
-  intros HI Hpc. inv_pc HI t Hpc.
-  destruct (is_nil (lst s)).
-  - pc_only_tac HI Hpc. exact Hi.
+  intros HI Hpc. inv_pc HI t Hpc. pose proof HI as (HW & (r & G) & T).
+  destruct (is_nil (lst s)) eqn:Nl.
+  - apply is_nil_true in Nl. pc_only_tac HI Hpc. split; [exact Hi|]. intros X. rewrite (pb_nil W s r G Nl) in X. discriminate X.
   - pc_only_tac HI Hpc.
     destruct (opform_facts W s op Hi) as [E [[Bm Ib]|(Bm & Ib & Wd & P)]]; rewrite Ib; split; auto.
 Qed.
@@ -363,7 +373,7 @@ Proof.
     pose proof (pb_head W s r G Hn) as P0.
     destruct ((owned =? 0) && negb (i_wt x =? 0) && negb (nz (f_dq_state_has_sync_width_room (st s) W))) eqn:C.
     + apply andb_true_iff in C as [C _]. apply andb_true_iff in C as [C _]. apply Z.eqb_eq in C. subst owned.
-      pc_only_tac HI Hpc. rewrite E.
+      pc_only_tac HI Hpc. rewrite E. split; [|intros X; rewrite P0 in X; discriminate X].
       destruct D as [[_ Ow]|(Bm & Ow & P)]; [unfold IN_BARRIER in Ow; discriminate|].
       exists 0, 0. split; [unfold ENQUEUED, INTERVAL, IN_BARRIER; lia|]. split; [lia|]. right.
       assert (dw s = 0) by (unfold INTERVAL in Ow; lia). auto.
@@ -392,8 +402,8 @@ Lemma step_W_next W s t op owned : Inv W s -> pcs s t = W_next op owned ->
 Proof.
   intros HI Hpc. inv_pc HI t Hpc. destruct Hi as (E & D).
   pose proof HI as (HW & (r & G) & T). pose proof (dw_range W s r G) as Dr.
-  destruct (is_nil (lst s)).
-  - pc_only_tac HI Hpc. rewrite E.
+  destruct (is_nil (lst s)) eqn:Nl.
+  - apply is_nil_true in Nl. pc_only_tac HI Hpc. rewrite E. split; [|intros X; rewrite (pb_nil W s r G Nl) in X; discriminate X].
     destruct D as [[Bm Ow]|(Bm & Ow & P)].
     + subst owned. rewrite Z.eqb_refl. rewrite (u64_id'' (W * INTERVAL)) by (unfold INTERVAL; lia).
       rewrite u64_id'' by (unfold IN_BARRIER, INTERVAL; lia).
@@ -478,7 +488,8 @@ Definition stable_for_owner (s s' : gst) (t : Z) : Prop :=
   (lst s' = lst s \/ exists x, lst s' = lst s ++ [x] /\ (i_wt x = 0 \/ i_wt x = t)) /\
   (forall v, v <> t -> pcs s' v = pcs s v /\ grant s' v = grant s v) /\
   (grant s t = GNone -> waitpc (pcs s t) = true -> grant s' t = GNone /\ waitpc (pcs s' t) = true) /\
-  (In t (waiters (lst s')) -> In t (waiters (lst s)) \/ waitpc (pcs s t) = false).
+  (In t (waiters (lst s')) -> In t (waiters (lst s)) \/ waitpc (pcs s t) = false) /\
+  (dirty s' = 1 \/ (U s <= U s' /\ dirty s' = dirty s)).
 
 Lemma other_thread W s s' t u :
   u <> t -> (forall v, thread_inv W s v) ->
@@ -495,7 +506,7 @@ Proof.
     destruct (Hst u Lu Ne) as (Eb & _). rewrite Eb. auto. }
   intros Ow. specialize (T6 Ow).
   assert (Lu : lockh s = Some u) by (apply T2; auto).
-  destruct (Hst u Lu Ne) as (Eb & Ed & Ep & HU & Hlst & Hv & Ht & Hw).
+  destruct (Hst u Lu Ne) as (Eb & Ed & Ep & HU & Hlst & Hv & Ht & Hw & HD).
   - eapply (pcinv_stable W s); try eassumption.
     + destruct Hlst as [E|(x & E & _)]; [left; exact E | right; exists x; exact E].
     + intros v Gv Wv. destruct (Z.eq_dec v t) as [->|Nv]; [auto|]. destruct (Hv v Nv) as [-> ->]. auto.
@@ -580,3 +591,32 @@ Proof. intros E2. unfold head_bar. rewrite E2. destruct (lst s); cbn; tauto. Qed
 Ltac pb_now r' Wn := match goal with |- context [pb ?s2] => rewrite (pb_st s2 r' eq_refl Wn) end.
 Lemma pb_same s s2 : st s2 = st s -> pb s2 = pb s.
 Proof. intros E. unfold pb. rewrite E. reflexivity. Qed.
+
+Lemma dirty_st s r : st s = enc r -> wfr r -> dirty s = f_d r.
+Proof. intros E Wf. unfold dirty. rewrite E, dec_enc by exact Wf. reflexivity. Qed.
+Lemma dirty_same s s2 : st s2 = st s -> dirty s2 = dirty s.
+Proof. intros E. unfold dirty. rewrite E. reflexivity. Qed.
+Lemma dirty_eq s s' r r' : st s = enc r -> wfr r -> st s' = enc r' -> wfr r' -> f_d r' = f_d r -> dirty s' = dirty s.
+Proof. intros E W E' W' H. rewrite (dirty_st s r E W), (dirty_st s' r' E' W'). exact H. Qed.
+
+(* a thread that neither owns the lock nor holds width, before and after its step *)
+Lemma self_plain' W s s2 t p2 :
+  thread_inv W s t -> holds (pcs s t) = false -> owns (pcs s t) = false -> waitpc (pcs s t) = false ->
+  holds p2 = false -> owns p2 = false -> waitpc p2 = false ->
+  pcs s2 t = p2 -> grant s2 t = grant s t -> (In t (holders s2) <-> In t (holders s)) -> lockh s2 = lockh s ->
+  (tokh s2 = Some t <-> toks p2 = true) -> thread_inv W s2 t.
+Proof.
+  intros Tt H1 O1 W1 H2 O2 W2 P2 G2 Hh L2 K2.
+  pose proof (not_waiting_grant W s t Tt W1) as Gt. destruct Tt as [T1 T2 T3 T4 T5 T6].
+  rewrite H1, Gt in T1. rewrite O1, Gt in T2.
+  constructor; rewrite ?P2, ?G2, ?Hh, ?L2, ?Gt, ?H2, ?O2, ?W2.
+  - exact T1.
+  - exact T2.
+  - exact K2.
+  - intros X; contradiction.
+  - intros X; discriminate.
+  - intros X; discriminate.
+Qed.
+
+Lemma Some_inj {A} (a b : A) : Some a = Some b -> a = b.
+Proof. intros H. injection H. auto. Qed.
